@@ -12,7 +12,7 @@ func init() { register("C04", runC04) }
 
 func runC04(c *Ctx, tier string) {
 	r := NewReport("C04", "other", tier, c)
-	r.Explanation = "Decision tables of the three life-cycle functions are extracted from SSA (branch conditions kept as uninterpreted atoms: source comparison, scope predicate calls, MaybeConfigure result, CheckApplies result, time comparisons) and evaluated on the full abstract domain source(16 declared constants + a future one) × scope predicates × configuration outcome × applicability × instant orderings against the specification: CABF_BR/CABF_SMIME_BR/CABF_CS_BR lints return a literal NA without constructing the lint when IsServerAuthCert/IsEmailProtectionCert/IsCodeSigning(PolicyIdentifiers) is false; otherwise exactly constructor → MaybeConfigure(instance, name) → CheckApplies(instance, obj) → window → Execute(instance, obj) on the same instance and object, a configuration error gives Fatal with the error's text and no further call, and the value returned is the very SSA value returned by the rule body (nothing stored into it). Plus: the recover wrapper replaces the result only when recover() is non-nil; no store to Status/Details of a result not allocated in the storing function anywhere in packages zlint and lint; every registered constructor returns a fresh allocation (never a global, captured or cached pointer). Does not decide what the three scope predicates mean (EKU/policy/SAN logic is the oracle) nor each lint's own CheckApplies semantics."
+	r.Explanation = "Decision tables of the three life-cycle functions are extracted from SSA (branch conditions kept as uninterpreted atoms: source comparison, scope predicate calls, MaybeConfigure result, CheckApplies result, time comparisons) and evaluated on the full abstract domain source(16 declared constants + a future one) × scope predicates × configuration outcome × applicability × instant orderings against the specification: CABF_BR/CABF_SMIME_BR/CABF_CS_BR lints return a literal NA without constructing the lint when IsServerAuthCert/IsEmailProtectionCert/IsCodeSigning(PolicyIdentifiers) is false; otherwise exactly constructor → MaybeConfigure(instance, name) → CheckApplies(instance, obj) → window → Execute(instance, obj) on the same instance and object, a configuration error gives Fatal with the error's text and no further call, and the value returned is the very SSA value returned by the rule body (nothing stored into it). Plus: the recover wrapper replaces the result only when recover() is non-nil; no store to Status/Details of a result not allocated in the storing function anywhere in packages zlint and lint; every registered constructor returns a fresh allocation (never a global, captured or cached pointer). The three scope predicates themselves (and HasEmailSAN / IsSMIMEBRCertificate) are decided by their own decision tables (loops unrolled twice + any-loop side condition) against the documented rule over EKUs, unknown EKUs, policy OIDs and e-mail SANs, and the OID variables they compare with are pinned to the CA/B Forum arcs. Does not decide each lint's own CheckApplies semantics."
 	r.Rule("lifecycle: scope gate → ctor → MaybeConfigure → CheckApplies → window → Execute, outcomes NA/Fatal/NA/NE/pass-through")
 	r.Rule("recover-wrapper: result replaced by Fatal only when recover() != nil")
 	r.Rule("result-untouched: framework stores to Status/Details only on results it allocated itself")
@@ -21,6 +21,7 @@ func runC04(c *Ctx, tier string) {
 	r.Exhaustive = true
 
 	lcReport(c, r, "lifecycle", nil)
+	scopePredicates(c, r)
 	recoverWrapper(c, r)
 	resultUntouched(c, r)
 	cs := BuildCensus(c)
